@@ -1,0 +1,18 @@
+// +build verif
+
+package store
+
+// VerifQueueIdle reports whether the write-behind queue has handed everything to the
+// on-disk database.
+func (database *ChainDatabase) VerifQueueIdle() bool {
+	q := database.Beansdb.Queue
+	q.IndexRW.Lock()
+	defer q.IndexRW.Unlock()
+	return len(q.Index) == 0
+}
+
+// VerifSetMaxCandidateCount changes the size of the published top-candidate list.
+func VerifSetMaxCandidateCount(n int) { max_candidate_count = n }
+
+// VerifMaxCandidateCount returns the size of the published top-candidate list.
+func VerifMaxCandidateCount() int { return max_candidate_count }
